@@ -254,3 +254,9 @@ REQUIRED = ['%s: %s' % (f, k) for f in ('f32', 'f64') for k in _K] + ['%s->int: 
 
 def floors(st, tier):
     return ['class %r never observed' % c for c in REQUIRED if st['classes'].get(c, 0) == 0]
+
+
+def extra_passes(runmod, tier, seed, st, jobs):
+    import aux
+    me = __import__('props.c14', fromlist=['x'])
+    return {'float_sweeps_vs_primitive': aux.float_sweeps(runmod, me, tier, seed, st, jobs)}
